@@ -196,3 +196,9 @@ Proof. exact canonical_prompts_in_language. Qed.
 
 Print Assumptions C17_regex_engine_decides_language.
 Print Assumptions C17_canonical_prompts_in_language.
+
+(* buildPrivGraph / buildJoinedPromptPattern / UpdatePrivileges as translated: the graph built from a platform's levels: a node per level, an edge to the previous level exactly when one is named (the escalate command plays no part), every edge mirrored; the joined prompt pattern *)
+From Scrapli Require Import PrivGraphSrc.
+Theorem C17_priv_graph_is_source : priv_graph_src_ok = true.
+Proof. exact priv_graph_is_source. Qed.
+Print Assumptions C17_priv_graph_is_source.
